@@ -22,7 +22,7 @@ namespace {
 constexpr u16 MMIO = 0x8000;
 // fixed opcode constants (see harness/common/guestprog.h for the ones shared with C06)
 constexpr u16 BR = 0x4180, MOV_I_SP = 0x5E0D, MOV_I_A0L = 0x5E1A, MOV_I_A1L = 0x5E1B, MOV_A0L_M = 0xD4BC, MOV_A1L_M = 0xD5BC,
-              MOV_M_A0 = 0xD4B8, MOV_M_A1 = 0xD5B8, MOV_I_MOD3 = 0x0037, RETI = 0x45C0, EINT = 0x4380, DINT = 0x43C0, NOP = 0x0000,
+              MOV_M_A0 = 0xD4B8, MOV_M_A1 = 0xD5B8, MOV_I_MOD3 = 0x0037, RETI = 0x45C0, RETIC = 0x45D0, EINT = 0x4380, DINT = 0x43C0, NOP = 0x0000,
               TST0_A0L = 0x89FA; // tst0 #imm16, a0l : fz = ((imm & a0l) == 0)
 inline u16 BRR_EQ(unsigned skip) { return (u16)(0x5000 | ((skip & 0x7F) << 4) | 1); } // brr +skip, eq
 
@@ -36,17 +36,33 @@ struct Prog {
     }
 };
 
-Prog guest() {
+// ctxsw: the APBP handler is entered with a context switch (ic0 = 1) and ends in retic;
+// timer_period != 0: timer 0 in auto-restart mode raises IRQ 10 -> int1 (trivial handler) so that a second core line is
+// being latched and sampled while the host's requests arrive on int0
+Prog guest(bool ctxsw, unsigned timer_period) {
     Prog p;
     p.at = 0;
     p.w2(BR, 0x0100);
     p.at = 0x0006;
     p.w2(BR, 0x0200);
+    p.at = 0x000E;
+    p.w2(BR, 0x0280);
     p.at = 0x0100;
     p.w2(MOV_I_SP, 0x0FF0);
     p.w2(MOV_I_A0L, 0x4000);
     p.w2(MOV_A0L_M, MMIO + 0x206); // IRQ 14 (APBP) -> int0
-    p.w2(MOV_I_MOD3, 0x4180);      // ie | im0 | cpc
+    if (timer_period) {
+        p.w2(MOV_I_A0L, 0x0400);
+        p.w2(MOV_A0L_M, MMIO + 0x208); // IRQ 10 (timer 0) -> int1
+        p.w2(MOV_I_A0L, (u16)timer_period);
+        p.w2(MOV_A0L_M, MMIO + 0x024);
+        p.w2(MOV_I_A0L, 0);
+        p.w2(MOV_A0L_M, MMIO + 0x026);
+        p.w2(MOV_I_A0L, 0x0404); // auto-restart, restart
+        p.w2(MOV_A0L_M, MMIO + 0x020);
+    }
+    // mod3: ic0 (bit 1), ie (7), im0 (8), im1 (9), cpc (14)
+    p.w2(MOV_I_MOD3, (u16)(0x4180 | (ctxsw ? 0x0002 : 0) | (timer_period ? 0x0200 : 0)));
     u32 main = p.at;
     // ---- main loop: poll channel 1 (its interrupt is disabled), echo it, rewrite the disable register
     p.w(DINT);
@@ -79,6 +95,11 @@ Prog guest() {
     p.w2(MOV_A1L_M, MMIO + 0x0CC); // SET_SEMAPHORE (echo to the CPU)
     p.w2(MOV_I_A1L, 0x4000);
     p.w2(MOV_A1L_M, MMIO + 0x202); // acknowledge IRQ 14
+    p.w(ctxsw ? RETIC : RETI);
+    // ---- timer interrupt handler (int1): acknowledge and return
+    p.at = 0x0280;
+    p.w2(MOV_I_A1L, 0x0400);
+    p.w2(MOV_A1L_M, MMIO + 0x202);
     p.w(RETI);
     return p;
 }
@@ -141,8 +162,13 @@ int main(int argc, char** argv) {
         Teakra::UserConfig cfg;
         Teakra::Teakra t(cfg);
         t.Reset();
-        for (auto& kv : guest().words)
+        const bool ctxsw = g.chance(1, 2);
+        static const unsigned periods[] = {0, 0, 6, 9, 50, 333, 1000};
+        const unsigned timer_period = g.pick(periods);
+        for (auto& kv : guest(ctxsw, timer_period).words)
             t.ProgramWrite(kv.first, kv.second);
+        ctx.count(ctxsw ? "cases_context_switching_handler" : "cases_plain_handler");
+        ctx.count(timer_period ? "cases_with_second_interrupt_line" : "cases_single_interrupt_line");
 
         std::vector<Ev> host_log, dsp_log;
         host_log.reserve(400000);
@@ -186,7 +212,7 @@ int main(int argc, char** argv) {
             Rng dg(g_sched_seed.load() ^ 0xD5);
             // let the guest finish its init code (ICU routing, interrupt enable) before the host starts sending:
             // a request that is not routed yet is dropped by design
-            Classify([&] { t.Run(200); });
+            Classify([&] { t.Run(300); });
             guest_ready.store(true, std::memory_order_release);
             while (!stop.load(std::memory_order_acquire)) {
                 unsigned n = (unsigned)dg.range(1, 3000);
